@@ -202,6 +202,12 @@ pub fn k_make_room<N: Nd, const F: usize, const CAP: usize>(nd: &mut N) {
 pub fn k_search_eof_f8<N: Nd>(nd: &mut N) {
     k_search_eof::<N, 8>(nd)
 }
+pub fn k_search_eof_f10<N: Nd>(nd: &mut N) {
+    k_search_eof::<N, 10>(nd)
+}
+pub fn k_search_full_f10_c7<N: Nd>(nd: &mut N) {
+    k_search_full::<N, 10, 7>(nd)
+}
 pub fn k_search_full_f8_c5<N: Nd>(nd: &mut N) {
     k_search_full::<N, 8, 5>(nd)
 }
@@ -216,6 +222,10 @@ harnesses! {
     fak_search_full_f8_c5 => k_search_full_f8_c5;
     /// @meta props=C03,C06,C09:t tier=quick kind=K timeout=1500 mem=12 unwind=11 bounds="fasta::Reader::make_room on a full buffer of capacity 5 over every 8-byte file, every record start, search position and <= 2 recorded line ends"
     fak_make_room_f8_c5 => k_make_room_f8_c5;
+    /// @meta props=C01:t,C05:t,C06:t tier=thorough kind=K stage2=pub timeout=5000 mem=30 unwind=13 bounds="as fak_search_eof_f8 with files <= 10 bytes"
+    fak_search_eof_f10 => k_search_eof_f10;
+    /// @meta props=C01:t,C06:t tier=thorough kind=K stage2=pub timeout=5000 mem=30 unwind=13 bounds="as fak_search_full_f8_c5 with capacity 7 over 10-byte files"
+    fak_search_full_f10_c7 => k_search_full_f10_c7;
 }
 
 /// K: `init` (= `first_byte` + '>' validation) from `New`: skips leading blank lines across
